@@ -4,6 +4,7 @@ import (
 	"fmt"
 	"math"
 	"math/rand"
+	"sort"
 	"strings"
 
 	"github.com/robfig/soy/data"
@@ -63,8 +64,13 @@ func funcLength(v []data.Value) data.Value {
 }
 
 func funcKeys(v []data.Value) data.Value {
-	var keys data.List
+	var names []string
 	for k := range v[0].(data.Map) {
+		names = append(names, k)
+	}
+	sort.Strings(names) // map iteration is randomised; the result must not be
+	var keys data.List
+	for _, k := range names {
 		keys = append(keys, data.String(k))
 	}
 	return keys
